@@ -13,6 +13,7 @@ protocol) triple.
 import itertools
 
 from harness import walklib as W
+from harness import walkunit as WU
 from harness.common import Result, run_driver
 from harness.knownsig import auth_len127
 
@@ -51,6 +52,7 @@ def run(ctx):
     res = Result()
     reqs, impls = [], []
     perm_checked = 0
+    WU.run(ctx, res, ctx.budget(1500, 30000))  # unit level: group_varbinds / get_unfinished_walk_oids / deduped_varbinds
     for db, roots, version, level, origin in _cases(ctx):
         spec = {"db": db}
         if len(roots) == 1 and ctx.rng.random() < 0.5:
